@@ -157,6 +157,8 @@ Record pvariant := {
   pv_filtered : bool;                    (* the distinguisher was fed the data WITHOUT the traces all of whose words are undeclared *)
   pv_exact : bool;                       (* the result must be bit-identical to the result of the first variant *)
   pv_obs_parts : list Z;                 (* .partitions afterwards *)
+  pv_obs_counters : list (list Z);       (* the documented attribute counters [word][class]; [] = not recorded *)
+  pv_obs_sums : list (list (list Z));    (* the documented attribute sum [sample][word][class]; [] = not recorded *)
   pv_obs : option (list (list fval))     (* compute() words x samples; None = ValueError at the first update *)
 }.
 Record cpart_case := {
@@ -166,16 +168,57 @@ Record cpart_case := {
   cq_variants : list pvariant
 }.
 
-Definition pvariant_check (c : cpart_case) (v : pvariant) : bool :=
+Definition oqc_eqb (a b : option Qc) : bool :=
+  match a, b with Some x, Some y => Qc_eq_bool x y | None, None => true | _, _ => false end.
+
+(* one (word, sample) entry of compute(): the observed float against the statistic over the VALUE classes (tolerance rule of
+   C04: P.obs_ok), and the impl-model of C04 against that spec on this input *)
+Definition centry_check (m : P.metric) (p : prec) (parts : list Z) (bs : list (list P.trace)) (w s : nat) (v : fval) : bool :=
+  let ebs := map (P.entry_rows w s) bs in
+  let gs := P.groups (nodup Z.eq_dec parts) (concat ebs) in
+  P.obs_ok p m gs v && oqc_eqb (P.run_entry m parts ebs) (P.spec_metric m gs).
+
+Definition dims (bs : list (list P.trace)) : nat * nat :=
+  match concat bs with t :: _ => (length (snd t), length (fst t)) | [] => (O, O) end.
+Definition rect_ok (bs : list (list P.trace)) (W S : nat) : bool :=
+  forallb (fun b => forallb (fun r : P.trace => Nat.eqb (length (fst r)) S && Nat.eqb (length (snd r)) W) b) bs.
+
+Definition table_check (m : P.metric) (p : prec) (parts : list Z) (bs : list (list P.trace)) (tbl : list (list fval)) : bool :=
+  let '(nw, ns) := dims bs in
+  negb (Nat.eqb nw 0) && negb (Nat.eqb ns 0) && rect_ok bs nw ns
+  && forallb2 (fun w ow => forallb2 (fun s v => centry_check m p parts bs w s v) (seq 0 ns) ow) (seq 0 nw) tbl.
+
+(* the per-class accumulators: class k of word w holds the traces whose word w EQUALS parts[k] (count, sum of each sample) *)
+Definition zsum (l : list Z) : Z := fold_right Z.add 0%Z l.
+Definition accu_check (parts : list Z) (bs : list (list P.trace)) (counters : list (list Z)) (sums : list (list (list Z))) : bool :=
+  let '(nw, ns) := dims bs in
+  let rows := concat bs in
+  let K := length parts in
+  let sel w k := filter (fun t : P.trace => Z.eqb (nth w (snd t) (-1)%Z) (nth k parts (-2)%Z)) rows in
+  negb (Nat.eqb (length (nodup Z.eq_dec parts)) K)
+  || ((match counters with [] => true | _ =>
+         Nat.eqb (length counters) nw
+         && forallb (fun w => forallb (fun k => Z.eqb (nth k (nth w counters []) (-1)%Z) (Z.of_nat (length (sel w k)))) (seq 0 K)) (seq 0 nw)
+       end)
+      && (match sums with [] => true | _ =>
+         Nat.eqb (length sums) ns
+         && forallb (fun s => forallb (fun w => forallb (fun k =>
+              Z.eqb (nth k (nth w (nth s sums []) []) (-1)%Z) (zsum (map (fun t : P.trace => nth s (fst t) 0%Z) (sel w k)))) (seq 0 K)) (seq 0 nw)) (seq 0 ns)
+       end)).
+
+Definition variant_batches (c : cpart_case) (v : pvariant) : list Z * list (list P.trace) :=
   let used_parts := match pv_parts v with Some p => p | None => pv_obs_parts v end in
-  let bs := if pv_filtered v then map (filter (keep_trace used_parts)) (cq_batches c) else cq_batches c in
-  let mk p := {| P.pc_metric := cq_metric c; P.pc_prec := cq_prec c; P.pc_parts := Some p; P.pc_batches := bs;
-                 P.pc_obs_parts := pv_obs_parts v; P.pc_obs := pv_obs v |} in
-  match pv_parts v with
-  | Some p => P.part_check (mk p)
-  | None =>
-      auto_ok (first_batch_values bs) (match pv_obs v with Some _ => Some (pv_obs_parts v) | None => None end)
-      && match pv_obs v with Some _ => P.part_check (mk (pv_obs_parts v)) | None => true end
+  (used_parts, if pv_filtered v then map (filter (keep_trace used_parts)) (cq_batches c) else cq_batches c).
+
+Definition pvariant_check (c : cpart_case) (v : pvariant) : bool :=
+  let '(parts, bs) := variant_batches c v in
+  let body tbl := zlist_eqb parts (pv_obs_parts v) && table_check (cq_metric c) (cq_prec c) parts bs tbl
+                  && accu_check parts bs (pv_obs_counters v) (pv_obs_sums v) in
+  match pv_parts v, pv_obs v with
+  | Some _, Some tbl => body tbl
+  | Some _, None => false
+  | None, Some tbl => auto_ok (first_batch_values bs) (Some (pv_obs_parts v)) && body tbl
+  | None, None => auto_ok (first_batch_values bs) None
   end.
 
 Definition cpart_check (c : cpart_case) : bool :=
@@ -187,13 +230,14 @@ Definition cpart_check (c : cpart_case) : bool :=
                            || match pv_obs v0, pv_obs v with Some a, Some b => fmat_eqb a b | _, _ => false end) (cq_variants c)
   end.
 
-(* what the spec says, per variant (for the replay files) *)
-Definition cpart_expected (c : cpart_case) : list (option (list Z * list (list (option Q)))) :=
+(* what the spec says, per variant: the class list and the statistic of every (word, sample) (for the replay files) *)
+Definition cpart_expected (c : cpart_case) : list (list Z * list (list (option Q))) :=
   map (fun v =>
-    let used_parts := match pv_parts v with Some p => p | None => pv_obs_parts v end in
-    let bs := if pv_filtered v then map (filter (keep_trace used_parts)) (cq_batches c) else cq_batches c in
-    P.part_expected {| P.pc_metric := cq_metric c; P.pc_prec := cq_prec c; P.pc_parts := Some used_parts; P.pc_batches := bs;
-                       P.pc_obs_parts := pv_obs_parts v; P.pc_obs := pv_obs v |}) (cq_variants c).
+    let '(parts, bs) := variant_batches c v in
+    let '(nw, ns) := dims bs in
+    (parts, map (fun w => map (fun s =>
+       option_map this (P.spec_metric (cq_metric c) (P.groups (nodup Z.eq_dec parts) (concat (map (P.entry_rows w s) bs))))) (seq 0 ns)) (seq 0 nw)))
+    (cq_variants c).
 
 (* ---------------------------------------------------------------- MIA *)
 Record mvariant := {
@@ -214,9 +258,6 @@ Definition mia_rows (s w : nat) (bs : list (list P.trace)) : list M.row :=
   map (fun t : P.trace => (qz (nth s (fst t) 0), nth w (snd t) (-1))) (concat bs).
 Definition mia_batches (s w : nat) (bs : list (list P.trace)) : list (list M.row) :=
   map (map (fun t : P.trace => (qz (nth s (fst t) 0), nth w (snd t) (-1)))) bs.
-
-Definition oqc_eqb (a b : option Qc) : bool :=
-  match a, b with Some x, Some y => Qc_eq_bool x y | None, None => true | _, _ => false end.
 
 Definition mia_tol : Q := Qmake 1 (2 ^ 30).
 
